@@ -1,11 +1,19 @@
 #!/bin/sh
-# Build the framework from files on disk only (offline).
+# Build the framework from files on disk only (offline): Lean proofs + drivers, fact extractor, Go harness binaries.
 set -e
 cd "$(dirname "$0")"
 export GOFLAGS=-mod=mod GOPROXY=off
 mkdir -p .build evidence
-(cd lean && lake build)
+# facts are regenerated from /repo by every check; make sure a copy exists for the first lake build
 (cd extract && go build -o ../.build/extract .)
+.build/extract /repo .build/Generated.setup.lean .build/facts.json >/dev/null
+cmp -s .build/Generated.setup.lean lean/Arrai/Facts/Generated.lean || cp .build/Generated.setup.lean lean/Arrai/Facts/Generated.lean
+props=$(ls lib/props_c*.py | sed 's/.*props_c\([0-9]*\)\.py/\1/')
+targets=""
+for n in $props; do targets="$targets Arrai.Proofs.C$n driver-c$n"; done
+(cd lean && lake build $targets)
 cp /repo/go.sum harness/go.sum
-(cd harness && go build -tags verif -o ../.build/harness .)
+for n in $props; do
+  (cd harness && go build -tags verif -o ../.build/harness-c$n ./cmd/c$n)
+done
 echo setup ok
